@@ -154,8 +154,12 @@ pub fn child(k: usize, outdir: &str, seed: u64, thorough: bool) -> serde_json::V
     for _ in 0..(80 * scale) {
         let mut r = rng.fork();
         let a = *r.pick(&ags);
-        let elem = match r.below(4) { 0 => Ty::Int(vec![{ let x = r.range(-20, 20); (x, x + r.range(0, 30)) }]), 1 => Ty::Float(vec![{ let x = (r.range(-40, 40) as f64) / 4.0; (x, x + (r.range(0, 80) as f64) / 4.0) }]),
-            2 => Ty::Int(vec![(0, 1)]), _ => Ty::Float(vec![(0.1, 0.1)]) };
+        let elem = match r.below(7) { 0 => Ty::Int(vec![{ let x = r.range(-20, 20); (x, x + r.range(0, 30)) }]), 1 => Ty::Float(vec![{ let x = (r.range(-40, 40) as f64) / 4.0; (x, x + (r.range(0, 80) as f64) / 4.0) }]),
+            2 => Ty::Int(vec![(0, 1)]), 3 => Ty::Float(vec![(0.1, 0.1)]),
+            // non-convex element types: value sets and unions of intervals (a mean, a variance ... falls in the gaps)
+            4 => Ty::Float({ let n = r.range(2, 4); let mut x = (r.range(-40, 0) as f64) / 4.0; (0..n).map(|_| { let a = x; x += (r.range(4, 60) as f64) / 4.0; (a, a) }).collect() }),
+            5 => Ty::Float({ let n = r.range(2, 3); let mut x = (r.range(-40, 0) as f64) / 4.0; (0..n).map(|_| { let a = x; let b = a + (r.range(0, 8) as f64) / 4.0; x = b + (r.range(4, 60) as f64) / 4.0; (a, b) }).collect() }),
+            _ => Ty::Int({ let n = r.range(2, 3); let mut x = r.range(-30, 0); (0..n).map(|_| { let a = x; let b = a + r.range(0, 3); x = b + r.range(2, 20); (a, b) }).collect() }) };
         let elem = if r.chance(1, 6) { Ty::Opt(Box::new(elem)) } else { elem };
         let lo = r.range(0, 3) as usize; let hi = lo + r.range(0, 5) as usize;
         let lt = DataType::list(to_dt(&elem), lo, hi);
